@@ -23,3 +23,67 @@ Definition run_segments (l : list N) : list N :=
       b2n (layout_okb 0 len L) ::
       encode_seg (segments (S (S (length L))) (k_seek_data L len) (k_seek_hole L len) len)
   end.
+
+(* ------------------------------------------------------------------ *)
+(* data path (C01 C05 C11 C15)                                          *)
+(* ------------------------------------------------------------------ *)
+From XcpModel Require Import Blocks CopyLoop Uspace FileCopy.
+
+Fixpoint take_drop {A} (n : nat) (l : list A) : list A * list A :=
+  match n, l with
+  | O, _ => ([], l)
+  | S k, x :: r => let '(a, b) := take_drop k r in (x :: a, b)
+  | S _, [] => ([], [])
+  end.
+
+Definition decode_mode (m : N) : reflink_mode :=
+  if m =? 0 then RfAuto else if m =? 1 then RfAlways else RfNever.
+
+Fixpoint encode_xtrace (t : xtrace) : list N :=
+  match t with
+  | [] => []
+  | (r, a) :: rest =>
+      let '(ok, v) := match a with XOk x => (1, x) | XErr e => (0, e) end in
+      r_src r :: r_dst r :: r_len r :: ok :: v :: encode_xtrace rest
+  end.
+
+Definition encode_fout (o : f_out) : list N :=
+  encode_status (f_st o) ++ [b2n (f_clone_issued o); b2n (f_cloned o); N.of_nat (length (f_rest o))]
+                ++ encode_xtrace (f_trace o).
+
+(* [bs; mode; len; sparse; clone_errno; nL; (s e)*nL; (ok v)*] *)
+Definition run_parfile_file (l : list N) : list N :=
+  match l with
+  | bs :: m :: len :: sp :: cl :: nL :: r =>
+      let '(lay, ansl) := take_drop (2 * N.to_nat nL) r in
+      let L := decode_layout lay in
+      let ans := decode_ans ansl in
+      b2n (layout_okb 0 len L) ::
+      encode_fout (parfile_copy_file (S (S (length L))) bs (decode_mode m) len (negb (sp =? 0))
+                                     (classify_clone cl) (k_seek_data L len) (k_seek_hole L len) ans)
+  | _ => [9]
+  end.
+
+(* [bs; mode; len; sparse; clone_errno; fiemap_supported; nE; (lg ln last sh)*nE; (ok v)*] *)
+Definition run_parblock_file (l : list N) : list N :=
+  match l with
+  | bs :: m :: len :: sp :: cl :: sup :: nE :: r =>
+      let '(ex, ansl) := take_drop (4 * N.to_nat nE) r in
+      let L := decode_fexts ex in
+      let ans := decode_ans ansl in
+      let mx := if sup =? 0 then MxNone else map_extents (S (length L)) (kernel_fiemap L) in
+      b2n (fexts_okb 0 L) ::
+      encode_fout (parblock_copy_file bs (decode_mode m) len (negb (sp =? 0)) (classify_clone cl) mx ans)
+  | _ => [9]
+  end.
+
+(* [which(0 range,1 bytes); nbytes; off; (ok v)*] -> status ++ [ret] ++ utrace *)
+Definition run_uspace (l : list N) : list N :=
+  match l with
+  | which :: nbytes :: off :: ansl =>
+      let ans := decode_ans ansl in
+      let o := if which =? 0 then copy_range_uspace (S (length ans)) nbytes off 0 ans
+               else copy_bytes_uspace (S (length ans)) nbytes off off 0 ans in
+      encode_status (u_st o) ++ [u_ret o; N.of_nat (length (u_rest o))] ++ encode_utrace (u_trace o)
+  | _ => [9]
+  end.
